@@ -73,9 +73,22 @@ def one(rng, k):
             data[rng.randrange(L)] = rng.randrange(1, 256)
     else:
         data = [rng.choice([0, 0, 0, rng.randrange(256)]) for _ in range(L)]
-    lines = parse_hlog_data(memoryview(bytes(data)), path)
+    route = 'direct'
+    if label in ('mex_pte.h', 'nimitz_pte.h') and (k // 3) % 4 >= 1:
+        # through the I/O drawer plug-in, which picks table and decoder by section version: the two drawer types take
+        # turns in one process, and what one of them declares says nothing about the other
+        import json
+        import udparsers.m2c00.m2c00 as plug
+        route = 'plugin'
+        out = json.loads(plug.parseUDToJson(72, {'mex_pte.h': 1, 'nimitz_pte.h': 2}[label], memoryview(bytes(data))))
+        lines = out.get('History Log') if isinstance(out, dict) and isinstance(out.get('History Log'), list) else None
+        if lines is None or (not lines and not data):
+            # (nothing to decode: the plug-in shows an empty list, the decoder itself is asked instead)
+            lines, route = parse_hlog_data(memoryview(bytes(data)), path), 'direct'
+    else:
+        lines = parse_hlog_data(memoryview(bytes(data)), path)
     rec = dict(family='C16', shape_ok=True, label=label, fields=[dict(name=drawer.cp(f['name']), size=f['size']) for f in fields],
-               data=data, dump=[], listed=[], dump_first=False)
+               data=data, dump=[], listed=[], dump_first=False, route=route)
     try:
         blank = lines.index('')
         rec['dump'] = [drawer.cp(x) for x in lines[2:blank]]
